@@ -421,6 +421,15 @@ func checkCase(res *engine.Result, txConfig client.TxConfig, c txCase, key []byt
 			}
 		}
 	}
+	// the recorded hash is checked on the receiving side whatever it looks like: a message that
+	// arrives with the hash of another transaction, a truncated or an omitted hash is refused
+	for _, wrong := range []string{"", tx.Hash().Hex()[:20], common.Hash{1}.Hex()} {
+		m3 := *m2
+		m3.Hash = wrong
+		if err := m3.ValidateBasic(); err == nil {
+			viol("wrong-hash-accepted", "a message whose recorded hash is not the Ethereum hash passes ValidateBasic", map[string]any{"recorded": wrong})
+		}
+	}
 	// a refused wrap leaves the message as it was: the same object is asked to take a transaction
 	// whose value does not fit 256 bits (legal RLP) - it must refuse, and what it holds afterwards
 	// must still be consistent (recorded hash == hash of the transaction it unwraps to)
